@@ -830,10 +830,14 @@ fn run_hist(w: &[&str], ctx: &mut Ctx) -> String {
         };
         let a = i64::from_be_bytes(cell(&mut p)?.try_into().ok()?);
         let bb = i64::from_be_bytes(cell(&mut p)?.try_into().ok()?);
-        let list = cell(&mut p)?;
         if bb <= a {
             return None;
         }
+        // a tuple may be shorter than declared (the missing fields are null), and the list may be null: no replicas
+        if p == b.len() || b.get(p..p + 4).is_some_and(|l| i32::from_be_bytes(l.try_into().unwrap()) < 0) {
+            return Some(TabletSpec { first: a + 1, last: bb, reps: vec![] });
+        }
+        let list = cell(&mut p)?;
         let n = i32::from_be_bytes(list.get(0..4)?.try_into().ok()?);
         let mut q = 4usize;
         let mut reps = Vec::new();
@@ -842,7 +846,7 @@ fn run_hist(w: &[&str], ctx: &mut Ctx) -> String {
             let item = list.get(q + 4..q + 4 + len)?;
             q += 4 + len;
             // tuple<uuid, int>: [len 16][uuid][len 4][int]
-            if item.len() != 28 {
+            if item.len() != 28 || item[0..4] != 16i32.to_be_bytes() || item[20..24] != 4i32.to_be_bytes() {
                 return None;
             }
             let id = u128::from_be_bytes(item[4..20].try_into().ok()?) as u64;
@@ -1874,7 +1878,35 @@ fn payload_hex(t: &TabletSpec) -> String {
 
 /// One tablet-feedback op: plain (`T`) or as payload bytes (`B`).
 fn learn_op(rng: &mut Rng, ks: usize, t: &TabletSpec) -> String {
-    if rng.chance(1, 3) && t.first > i64::MIN { format!("B{}.0@{}", ks, payload_hex(t)) } else { format!("T{}.0@{}", ks, fmt_tablet(t)) }
+    if rng.chance(1, 3) && t.first > i64::MIN {
+        let good = payload_hex(t);
+        // one payload in six is one the driver must refuse (nothing is learnt from it): cut short, an empty or inverted
+        // range, a negative shard, a replica whose host id is not 16 bytes
+        let hexs = if rng.chance(1, 6) {
+            match rng.below(4) {
+                0 => {
+                    let cut = 2 * rng.below((good.len() / 2) as u64) as usize;
+                    if cut == 0 { "00".to_owned() } else { good[..cut].to_owned() }
+                }
+                1 => payload_hex(&TabletSpec { first: t.last.wrapping_add(1), last: t.last.wrapping_sub(rng.below(3) as i64), reps: t.reps.clone() }),
+                2 if !t.reps.is_empty() => {
+                    // the last replica's shard becomes -1 (its four bytes are the last four of the payload)
+                    format!("{}ffffffff", &good[..good.len() - 8])
+                }
+                _ if !t.reps.is_empty() => {
+                    // the first replica's uuid cell claims 15 bytes
+                    let at = 2 * (4 + 8 + 4 + 8 + 4 + 4 + 4);
+                    format!("{}0000000f{}", &good[..at], &good[at + 8..])
+                }
+                _ => good,
+            }
+        } else {
+            good
+        };
+        format!("B{}.0@{}", ks, hexs)
+    } else {
+        format!("T{}.0@{}", ks, fmt_tablet(t))
+    }
 }
 
 fn fmt_tablet(t: &TabletSpec) -> String {
